@@ -1,7 +1,111 @@
-import SshAudit.Driver.WireOps
+import SshAudit.Driver.ReportOps
+import SshAudit.Model.Output
 namespace SshAudit.Driver
+open SshAudit SshAudit.Output
 
-/-- line-protocol operations of the Output model (stub; filled in when the model lands) -/
-def outputOp (_op : String) (_args : List String) : Option J := none
+/-- `bvdcjJ:L` — batch, verbose, debug, colors, json, jsonIndent as 0/1, then the level number -/
+def decCfg (tok : String) : Option Cfg :=
+  match tok.splitOn ":" with
+  | [flags, lv] => do
+    let lv ← decNat lv
+    match flags.toList with
+    | [b, v, d, c, j, ji] => do
+      let f (ch : Char) : Option Bool := if ch = '1' then some true else if ch = '0' then some false else none
+      let b ← f b; let v ← f v; let d ← f d; let c ← f c; let j ← f j; let ji ← f ji
+      pure { batch := b, verbose := v, debug := d, colors := c, level := lv, json := j, jsonIndent := ji }
+    | _ => none
+  | _ => none
+
+def decMeth (tok : String) : Option Meth :=
+  match tok with
+  | "head" => some .head
+  | "good" => some .good
+  | "info" => some .info
+  | "warn" => some .warn
+  | "fail" => some .fail
+  | _ => none
+
+def methName : Meth → String
+  | .head => "head" | .good => "good" | .info => "info" | .warn => "warn" | .fail => "fail"
+
+/-- one buffer operation: fields separated by `:` -/
+def decOp (tok : String) : Option Op :=
+  match tok.splitOn ":" with
+  | ["p", m, t, e, a] => do let m ← decMeth m; let t ← decStr t; let e ← decBool e; let a ← decBool a; pure (.print m t e a)
+  | ["h", t, e] => do let t ← decStr t; let e ← decBool e; pure (.head t e)
+  | ["s"] => some .sep
+  | ["e"] => some .enter
+  | ["x"] => some .exit
+  | ["f", b] => do let b ← decBool b; pure (.flush b)
+  | ["c", t, b] => do let t ← decStr t; let b ← decBool b; pure (.close t b)
+  | ["w"] => some .write
+  | ["r"] => some .reset
+  | ["v", t, w] => do let t ← decStr t; let w ← decBool w; pure (.v t w)
+  | ["d", t, w] => do let t ← decStr t; let w ← decBool w; pure (.d t w)
+  | _ => none
+
+def decOps (tok : String) : Option (List Op) :=
+  if tok = "_" then some [] else (tok.splitOn ";").mapM decOp
+
+def decFps (tok : String) : Option (List Fp) :=
+  if tok = "_" then some [] else
+  (tok.splitOn ";").mapM fun (e : String) =>
+    match e.splitOn ":" with
+    | [t, a, b] => do let t ← decStr t; let a ← decStr a; let b ← decStr b; pure ({ ftype := t, sha256 := a, md5 := b } : Fp)
+    | _ => none
+
+def jbuf (b : Buf) : J := .obj [
+  ("buffer", J.ofStrs b.buffer), ("sect", J.ofStrs b.sect), ("inSection", .bool b.inSection), ("lineEnded", .bool b.lineEnded),
+  ("out", .arr (b.out.map J.ofStrs)), ("err", J.ofOpt (fun e => .str (exnName e).toList) b.err)]
+
+def jpair (p : Finding × Item) : J :=
+  .arr [.str p.1.cat, .str p.1.shown, .str (Output.levelName p.1.level), .str p.1.text, .str (methName p.2.meth).toList, .str p.2.text]
+
+def outputOp (op : String) (args : List String) : Option J :=
+  match op with
+  | "buf.exec" =>
+    match args with
+    | [c, ops] => do let c ← decCfg c; let ops ← decOps ops; pure (jok (jbuf (exec c ops {})))
+    | _ => none
+  | "out.strip" =>
+    match args with
+    | [t] => do let t ← decStr t; pure (jok (.str (stripAnsi t)))
+    | _ => none
+  | "out.sort" =>
+    match args with
+    | [l] => do let l ← decStrs l; pure (jok (J.ofStrs (sortStr l)))
+    | _ => none
+  | "output.run" =>
+    match args with
+    | c :: hk :: tg :: cip :: hd :: bn :: s1 :: va :: sw :: dsp :: cmp :: fps :: pt :: jc :: ji :: vm :: er ::
+        role :: bsw :: bcm :: rn :: rest => do
+      let cfg ← decCfg c
+      let hasKex ← decBool hk
+      let target ← decOptStr tg; let clientIP ← decOptStr cip; let header ← decOptStr hd
+      let btext ← decOptStr bn; let ssh1 ← decBool s1; let validAscii ← decBool va; let software ← decOptStr sw
+      let swDisplay ← decOptStr dsp; let compat ← decOptStr cmp; let fps ← decFps fps; let putty ← decBool pt
+      let jc ← decStr jc; let ji ← decStr ji; let vmsgs ← decStrs vm; let err ← decOptStr er
+      let client ← decBool role
+      let bsw ← decOptStr bsw; let bcm ← decOptStr bcm; let rate ← decStr rn
+      let peer ← decPeerR rest
+      let r := Report.report Gen.rsaFamily Gen.ssh2db peer client bsw (Version.parse bsw bcm) rate
+      let empty : Report.Report := { kex := [], key := [], enc := [], mac := [], status := 0, compression := [], recs := [], notes := [], unknown := [] }
+      let inp : Input := {
+        report := if hasKex then r else empty, hasKex := hasKex, rsaFamily := Gen.rsaFamily, hostKeys := peer.hostKeys, dhSizes := peer.dhSizes,
+        maxlen := (if hasKex then maxlenOf peer else 0) + 1, target := target, clientIP := clientIP, header := header,
+        banner := btext.map (fun t => { text := t, ssh1 := ssh1, validAscii := validAscii, software := software }),
+        swDisplay := swDisplay, compat := compat, fps := fps, putty := putty, jsonCompact := jc, jsonIndented := ji }
+      let fin := exec cfg (outputOps cfg inp) {}
+      let so := match err with
+        | none => stdoutOf cfg vmsgs inp
+        | some e => stdoutOfError cfg vmsgs inp e
+      pure (jok (.obj [
+        ("entries", J.ofStrs (render cfg inp)), ("closed", J.ofStrs (renderClosed cfg inp)),
+        ("stdout", .str (outText so)), ("stdoutEntries", J.ofStrs (outEntries so)),
+        ("err", J.ofOpt (fun e => .str (exnName e).toList) fin.err), ("status", .nat (exitStatus cfg inp)),
+        ("pairs", .arr ((shownPairs cfg inp).map jpair)),
+        ("findings", .arr ((findingsOf inp.report).map fun f => .arr [.str f.cat, .str f.shown, .str (Output.levelName f.level), .str f.text]))]))
+    | _ => none
+  | _ => none
 
 end SshAudit.Driver
